@@ -22,9 +22,11 @@ from haiway import MISSING, Missing, State  # noqa: E402
 ID = "C04"
 TECHNIQUE = "explicit-state search over operation histories (mutation attempts, updated, copy, deepcopy) on real State instances with a 'value never changes' reference, plus the exhaustive equality pair matrix"
 RULE = (
-    "catalogue of 16 state classes (scalars, Sequence/Set/Mapping/tuple attributes, nested, "
-    "recursive, generic-specialised, Missing-typed, defaulted, containers of containers) x 2-3 "
-    "instances built from mutable argument containers x every operation history up to length L; "
+    "catalogue of 18 state classes (scalars, Sequence/Set/Mapping/tuple attributes, nested, "
+    "recursive, generic-specialised, Missing-typed, defaulted, containers of containers, subclass, "
+    "Any-typed) x 2-3 instances built from mutable argument containers (also read-only views of "
+    "dicts the caller keeps) x every operation history up to length L (mutation attempts, updated "
+    "with valid / unknown / invalid / equal-but-invalid replacements, copy, deepcopy); "
     "equality: all ordered pairs (and triples for transitivity) of instances; non-trivial = the "
     "history mutates an original argument container or derives an updated copy, or the pair is "
     "of the same class"
